@@ -25,7 +25,7 @@ func TestEnum(t *testing.T) {
 				if failing != 0 && subset&(1<<(failing-1)) == 0 {
 					continue
 				}
-				for ci, ctx := range []string{"shared", "own", "isolated"} {
+				for ci, ctx := range []string{"shared", "own", "isolated", "fresh"} {
 					n++
 					if n%nshards != shard {
 						continue
@@ -40,7 +40,7 @@ func TestEnum(t *testing.T) {
 		}
 	}
 	hx.AddExhaustive(hx.Exhaustive{
-		What:  fmt.Sprintf("one try block: every subset of {success,fail,finally} x %d body shapes x {no handler fails, each defined handler fails} x 3 context kinds (shard %d of %d)", len(bodies), shard, nshards),
+		What:  fmt.Sprintf("one try block: every subset of {success,fail,finally} x %d body shapes x {no handler fails, each defined handler fails} x 4 context kinds (shard %d of %d)", len(bodies), shard, nshards),
 		Bound: "fixed probe durations; each grid point once per run",
 		Count: count,
 	})
